@@ -15,15 +15,24 @@ def zeros_for(tag, R, C):
     return z
 
 
-def mk(t, M, K, N, lt, rt):
-    wit = ('extern "C" void @W@(const %s& a, const %s& b, %s& c){ c = tmatmul<UpLoType::%s,UpLoType::%s>(a,b); }'
-           % (tensor_t(t, [M, K]), tensor_t(t, [K, N]), tensor_t(t, [M, N]), lt, rt))
+def mk(t, M, K, N, lt, rt, form='mat'):
+    """form: 'mat' (two matrices), 'matvec' / 'vecmat' (the rank-1 overloads: N == 1 / M == 1), 'expr_l' / 'expr_r' / 'expr_lr'
+    (the overloads that evaluate an expression operand into a temporary first)"""
+    ta, tb, tc = tensor_t(t, [M, K]), tensor_t(t, [K, N]), tensor_t(t, [M, N])
+    if form == 'matvec':
+        assert N == 1; tb, tc = tensor_t(t, [K]), tensor_t(t, [M])
+    elif form == 'vecmat':
+        assert M == 1; ta, tc = tensor_t(t, [K]), tensor_t(t, [N])
+    ea = 'a+0' if form in ('expr_l', 'expr_lr') else 'a'
+    eb = 'b+0' if form in ('expr_r', 'expr_lr') else 'b'
+    wit = ('extern "C" void @W@(const %s& a, const %s& b, %s& c){ c = tmatmul<UpLoType::%s,UpLoType::%s>(%s,%s); }' % (ta, tb, tc, lt, rt, ea, eb))
     ra, rb = treg('a', t, [M, K]), treg('b', t, [K, N])
     ra['zeros'] = zeros_for(lt, M, K); rb['zeros'] = zeros_for(rt, K, N)
     regions = [ra, rb, treg('c', t, [M, N], 'out'), rreg('cref', t, M * N)]
     stages = [{'mod': 'wit', 'fn': '@W@', 'args': ['a', 'b', 'c']}, {'mod': 'ref', 'fn': '@R@', 'args': ['a', 'b', 'cref']}]
     obl = [{'kind': 'equal', 'a': 'c', 'b': 'cref', 'cells': M * N, 'mode': 'ALG'}]
-    return Witness('tmm_%s_%s%s_%d_%d_%d' % (t, lt[0], rt[0], M, K, N), 'tmatmul', {'type': t, 'M': M, 'K': K, 'N': N, 'lhs': lt, 'rhs': rt}, wit, c01.ref_matmul(t, M, K, N), regions, stages, obl)
+    return Witness('tmm_%s_%s%s_%d_%d_%d%s' % (t, lt[0], rt[0], M, K, N, '' if form == 'mat' else '_' + form), 'tmatmul' + ('' if form == 'mat' else '.' + form),
+                   {'type': t, 'M': M, 'K': K, 'N': N, 'lhs': lt, 'rhs': rt, 'form': form}, wit, c01.ref_matmul(t, M, K, N), regions, stages, obl)
 
 
 def witnesses(tier, seed):
@@ -55,6 +64,22 @@ def witnesses(tier, seed):
             for rt in TAGS:
                 for t in (['f32', 'f64'] if tier == 'quick' else types):
                     W.append(mk(t, M, K, N, lt, rt))
+    # the rank-1 overloads (matrix x vector, vector x matrix) and the overloads taking expressions (coverage accounting: unreached)
+    k = 0
+    for n in ([1, 2, 3, 4, 5, 7, 8, 9, 16, 17] if tier == 'quick' else list(range(1, 18)) + [31, 32, 33]):
+        for m in ([n] if tier == 'quick' else sorted(set([n, max(1, n - 1), n + 3]))):
+            for lt in TAGS:
+                for rt in TAGS:
+                    k += 1
+                    t = types[(k + seed) % 4]
+                    W.append(mk(t, m, n, 1, lt, rt, 'matvec'))
+                    W.append(mk(t, 1, n, m, lt, rt, 'vecmat'))
+    for (M, K, N) in [(3, 3, 3), (4, 5, 4), (7, 7, 7), (8, 8, 9), (5, 9, 13)]:
+        for lt in TAGS:
+            for rt in TAGS:
+                for form in ('expr_l', 'expr_r', 'expr_lr'):
+                    k += 1
+                    W.append(mk(types[(k + seed) % 4], M, K, N, lt, rt, form))
     return W
 
 
